@@ -186,7 +186,11 @@ def check(chk):
                 chk.ob("OWN-17", "%s: the payload is read by one readexactly (no partial-read loop)" % cn, not loops, f.where(x), construct=f.ident,
                        text="payload read loop in " + cn)
         eof = [b for b in fcfg.nodes if b.kind == "branch" and src(b.ast) == "message" and b.value is False]
-        ok = bool(eof) and any(n.kind == "stmt" and isinstance(n.ast, ast.Raise) for n in (fcfg.nodes[i] for i in fcfg.reachable([eof[0].id])))
+        rl_ids = [n.id for n in fcfg.nodes if n.kind == "stmt" and "readline" in n.text(200)]
+        ok = bool(eof) and any(n.kind == "stmt" and isinstance(n.ast, ast.Raise) for n in (fcfg.nodes[i] for i in fcfg.reachable([eof[0].id], avoid=rl_ids)))
+        live = [b for b in fcfg.nodes if b.kind == "branch" and src(b.ast) == "message" and b.value is True]
+        ok = ok and bool(live) and not any(n.kind == "stmt" and isinstance(n.ast, ast.Raise) and "Broken" in src(n.ast)
+                                           for n in (fcfg.nodes[i] for i in fcfg.reachable([live[0].id], avoid=rl_ids)))
         chk.ob("OWN-17", "%s: end of stream raises instead of yielding an empty command" % cn, ok, f.where(), construct=f.ident, text="eof in " + cn)
         sp = [y for y in walk_local(f.node) if isinstance(y, ast.Assign) and isinstance(y.value, ast.Call) and call_attr(y.value) == "split"]
         ok = bool(sp) and isinstance(sp[0].targets[0], ast.Tuple) and [src(e) for e in sp[0].targets[0].elts] == ["message", "bytes_needed"]
@@ -195,10 +199,74 @@ def check(chk):
         rets = [y for y in ast.walk(f.node) if isinstance(y, ast.Return)]
         chk.ob("OWN-17", "%s: commands are handed out one by one in arrival order (no reordering container)" % cn, len(rets) == 1 and src(rets[0].value) == "message_obj",
                f.where(), construct=f.ident, text="return order in " + cn)
+        _frame_rules(chk, cn, f, fcfg)
     chk.expect(n_r == 2, "C19: socket readers lost")
     snd = repo.func(BS, "AsyncioBcpClientSocket.send")
     ok = any(call_attr(c) == "write" and "+ '\\n'" in src(c) for c in snd.calls())
     chk.ob("OWN-17", "each command is sent as exactly one line", ok, snd.where(), construct=snd.ident, text="one line per command")
+
+
+def _frame_rules(chk, cn, f, cfg):
+    """FRAME-1: what read_message does with one line -- strip exactly the line terminator, take the payload branch iff the
+    byte marker is in the line, hand (text[, payload]) to the decoder on the right branch, return every decoded command."""
+    # newline strip: exactly one trailing byte (or an rstrip of the terminator)
+    strips = [n for n in cfg.nodes if n.kind == "stmt" and isinstance(n.ast, ast.Assign) and src(n.ast.targets[0]) == "message"
+              and isinstance(n.ast.value, (ast.Subscript, ast.Call)) and "readline" not in src(n.ast.value) and "split" not in src(n.ast.value)]
+    ok = False
+    for n in strips:
+        v = n.ast.value
+        if isinstance(v, ast.Subscript) and src(v.value) == "message" and isinstance(v.slice, ast.Slice):
+            lo = const_value(v.slice.lower) if v.slice.lower is not None else 0
+            hi = const_value(v.slice.upper) if v.slice.upper is not None else None
+            ok = lo == 0 and hi == -1 and v.slice.step is None
+        elif isinstance(v, ast.Call) and call_attr(v) in ("rstrip", "removesuffix") and src(v.func.value) == "message":
+            ok = bool(v.args) and src(v.args[0]) in ("b'\\n'", 'b"\\n"')
+    chk.ob("FRAME-1", "%s strips exactly the line terminator from the line read" % cn, len(strips) == 1 and ok, f.where(),
+           detail="strip statements: %s" % [src(n.ast) for n in strips], construct=f.ident, text="newline strip in " + cn)
+    rl = [n for n in cfg.nodes if n.kind == "stmt" and "readline" in n.text(200)]
+    pcs = [(n, c) for n, c in cfg.calls_named("_process_command")]
+    if not pcs:
+        chk.missing("FRAME-1", "%s.read_message decodes the line (_process_command)" % cn, f)
+        return
+    for n in strips:
+        chk.ob("FRAME-1", "%s: the strip happens once per line, before the marker test and the decode" % cn,
+               all(cfg.dominates(n.id, p.id) for p, _ in pcs) and all(cfg.dominates(r.id, n.id) for r in rl), f.where(n.ast),
+               construct=f.ident, text="strip position in " + cn)
+    two = one = 0
+    for n, c in pcs:
+        g = cfg.guards_at(n.id)
+        marker = g.get("BYTE_MARKER in message")
+        if marker is None and g.get("BYTE_MARKER not in message") is not None:
+            marker = not g.get("BYTE_MARKER not in message")
+        if marker is None:
+            mk = [k for k in g if "in message" in k and ("bytes" in k.lower())]
+            marker = g[mk[0]] if mk else None
+        if len(c.args) >= 2:
+            two += 1
+            rex = [m for m, cc in cfg.calls_named("readexactly")]
+            payload_names = {src(t) for m in rex if isinstance(m.ast, ast.Assign) for t in m.ast.targets}
+            ok = marker is True and src(c.args[0]) == "message" and src(c.args[1]) in payload_names and \
+                all(cfg.dominates(m.id, n.id) for m in rex)
+            chk.ob("FRAME-1", "%s: a line with the byte marker is decoded together with the payload read for it" % cn, ok, f.where(c),
+                   detail="guards %s" % sorted(g.items()), construct=f.ident, text="payload branch in " + cn)
+        else:
+            one += 1
+            ok = marker is False and len(c.args) == 1 and src(c.args[0]) == "message"
+            chk.ob("FRAME-1", "%s: a line without the byte marker is decoded as it is, and no payload bytes are consumed" % cn, ok, f.where(c),
+                   detail="guards %s" % sorted(g.items()), construct=f.ident, text="plain branch in " + cn)
+            rex = [m.id for m, cc in cfg.calls_named("readexactly")]
+            chk.ob("FRAME-1", "%s: payload bytes are read only for lines that announce them" % cn,
+                   all(cfg.guards_at(m).get("BYTE_MARKER in message") is True for m in rex), f.where(c), construct=f.ident,
+                   text="readexactly guard in " + cn)
+    chk.ob("FRAME-1", "%s has both the payload and the plain decode branch" % cn, two >= 1 and one >= 1, f.where(), construct=f.ident,
+           text="decode branches in " + cn)
+    # every decoded command is returned; only an empty result continues with the next line
+    for r in [x for x in cfg.nodes if x.kind == "stmt" and isinstance(x.ast, ast.Return)]:
+        g = cfg.guards_at(r.id)
+        ok = g.get("message_obj") is True and all(k in ("message_obj", "message", "BYTE_MARKER in message", "True") or v is not None
+                                                  for k, v in g.items())
+        chk.ob("FRAME-1", "%s returns a decoded command as soon as there is one" % cn, ok and set(g) <= {"message_obj", "message", "True"},
+               f.where(r.ast), detail="guards %s" % sorted(g.items()), construct=f.ident, text="return guard in " + cn)
 
 
 def battery():
@@ -219,6 +287,13 @@ def battery():
         # twins
         M("twin: unquote instead of unquote_plus for numbers", BS, "            kwargs[name] = int(unquote_plus(value[4:]))", "            kwargs[name] = int(unquote_plus(value[len('int:'):]))", None),
         M("twin: renamed local", BS, "                raw_bytes = await self._receiver.readexactly(bytes_needed)\n\n                message_obj = self._process_command(message, raw_bytes)", "                payload = await self._receiver.readexactly(bytes_needed)\n\n                message_obj = self._process_command(message, payload)", None),
+        M("newline not stripped", BS, "            message = message[0:-1]\n", "", "FRAME-1", nth=0),
+        M("two bytes stripped", BS, "message = message[0:-1]", "message = message[0:-2]", "FRAME-1", nth=1),
+        M("payload branch inverted", BS, "            if BYTE_MARKER in message:\n                message, bytes_needed = message.split(BYTE_MARKER)", "            if BYTE_MARKER not in message:\n                message, bytes_needed = message.split(BYTE_MARKER)", "FRAME-1"),
+        M("payload read but not handed to the decoder", BS, "message_obj = self._process_command(message, raw_bytes)", "message_obj = self._process_command(message)", "FRAME-1"),
+        M("decoded command dropped", BS, "            else:  # no bytes in the message\n                message_obj = self._process_command(message)\n\n            if message_obj:\n                return message_obj\n\n    def send", "            else:  # no bytes in the message\n                message_obj = self._process_command(message)\n\n            if not message_obj:\n                return message_obj\n\n    def send", "FRAME-1"),
+        M("EOF test inverted", BS, "            if not message:\n                raise BrokenPipeError()", "            if message:\n                raise BrokenPipeError()", "OWN-17", nth=0),
+        M("twin: rstrip newline", BS, "message = message[0:-1]", "message = message[:-1]", None, nth=-1),
     ]
 
 
